@@ -75,6 +75,17 @@ def features(beh):
                 pos += n
         kvs = '|'.join(parts)
         feats.add(('age', av, c['d1'], lim))                 # ordering class of the write times x limits
+        # per segment: first write / last write relative to the cut-off and how the segment object came to be
+        # (written in this process or set up from the index after a reopen / Replace)
+        fv, rv = ''.join(c['fv']), ''.join(c['rv'])
+        if av:
+            seg3 = tuple(f + l + r for f, l, r in zip(fv, av, rv))
+            feats.add(('age-seg', seg3[:3], c['d1']))
+            for x in set(seg3):
+                feats.add(('age-one', x, lim))
+        feats.add(('origin', rv[:3], c['d'], lim))
+        prev = steps[i - 1]['a'] if i > 0 else 'Open'
+        feats.add(('before', prev, a['a'], c['d'] > 0, lim))
         feats.add(('drop', c['n'], c['d1'], c['d'], lim))    # which limit bites how far
         feats.add(('cnt', cnt[-4:], c['d'], lim[1:]))        # layout of message counts
         feats.add(('empty-active', c['e'], c['n'] > 1, c['d']))
@@ -262,6 +273,13 @@ def run_check(rep, tier, seed, replay, prop, names, nontrivial, rule, quick_num=
             if st['last']['a'] in ('Clean', 'CleanBegin'):
                 classes.add((''.join(st['last']['cls']['av']), tuple(st['last']['cls']['lim'])))
     rep.cov['age_ordering_classes_replayed'] = len({c for c in classes if c[0]})
+    strad = 0
+    for b in chosen:
+        for st in b[1:]:
+            c = st['last'].get('cls')
+            if c and c['av']:
+                strad += sum(1 for f, l, r in zip(c['fv'], c['av'], c['rv']) if f == 'O' and l == 'Y' and r == 'r')
+    rep.cov['cleans_segments_straddling_cutoff_set_up_from_index'] = strad
     rep.cov['age_classes_with_old_segment_behind_young'] = len({c for c in classes if 'YO' in c[0] or 'EO' in c[0]})
     lap('simulation (%d behaviours)' % len(behaviours))
     # 3. execute on the real code, 4. judge with TLC
